@@ -20,6 +20,7 @@ import (
 	"github.com/keep-network/keep-core/internal/verifkit"
 	"github.com/keep-network/keep-core/pkg/chain"
 	"github.com/keep-network/keep-core/pkg/chain/local_v1"
+	"github.com/keep-network/keep-core/pkg/crypto/ephemeral"
 	"github.com/keep-network/keep-core/pkg/generator"
 	"github.com/keep-network/keep-core/pkg/internal/tecdsatest"
 	"github.com/keep-network/keep-core/pkg/net"
@@ -255,6 +256,49 @@ func (h *c07Hub) count(k string) {
 	h.mu.Unlock()
 }
 
+// c07OtherPayload returns the message with a different payload - what a
+// message of the same sender in a really different session would carry: TSS
+// payload bytes altered, ephemeral keys permuted among the receivers. If such a
+// message were accepted (first message of a sender wins) the round would fail.
+func c07OtherPayload(typ string, raw []byte) []byte {
+	p := c07NewOf(typ)
+	if p == nil || p.Unmarshal(raw) != nil {
+		return raw
+	}
+	flip := func(b []byte) []byte {
+		c := append([]byte{}, b...)
+		if len(c) > 0 {
+			c[len(c)/2] ^= 0x5a
+			c[len(c)-1] ^= 0x01
+		}
+		return c
+	}
+	switch v := p.(type) {
+	case *ephemeralPublicKeyMessage:
+		var ids []group.MemberIndex
+		for id := range v.ephemeralPublicKeys {
+			ids = append(ids, id)
+		}
+		sort.Slice(ids, func(i, j int) bool { return ids[i] < ids[j] })
+		rot := map[group.MemberIndex]*ephemeral.PublicKey{}
+		for i, id := range ids {
+			rot[id] = v.ephemeralPublicKeys[ids[(i+1)%len(ids)]]
+		}
+		v.ephemeralPublicKeys = rot
+	case *tssRoundOneMessage:
+		v.broadcastPayload = flip(v.broadcastPayload)
+	case *tssRoundTwoMessage:
+		v.broadcastPayload = flip(v.broadcastPayload)
+	case *tssRoundThreeMessage:
+		v.broadcastPayload = flip(v.broadcastPayload)
+	}
+	b, err := p.(net.TaggedMarshaler).Marshal()
+	if err != nil {
+		return raw
+	}
+	return b
+}
+
 func c07Craft(typ string, raw []byte, sender group.MemberIndex, session string) []byte {
 	p := c07NewOf(typ)
 	if p == nil || p.Unmarshal(raw) != nil {
@@ -300,7 +344,7 @@ func (h *c07Hub) onSend(sender group.MemberIndex, typ string, raw []byte) {
 	h.lastSend = time.Now()
 	var injects []c07Injection
 	for _, in := range h.injects {
-		if in.triggerSender == sender && in.triggerType == ti {
+		if in.triggerSender == sender && (in.triggerType < 0 || in.triggerType == ti) {
 			injects = append(injects, in)
 		}
 	}
@@ -310,7 +354,7 @@ func (h *c07Hub) onSend(sender group.MemberIndex, typ string, raw []byte) {
 		var crafted, key []byte
 		switch in.kind {
 		case "other-session":
-			crafted, key = c07Craft(typ, raw, sender, "another-session"), h.pubKeys[sender]
+			crafted, key = c07Craft(typ, c07OtherPayload(typ, raw), sender, "another-session"), h.pubKeys[sender]
 		case "wrong-index":
 			crafted, key = c07Craft(typ, raw, in.claimed, ""), h.pubKeys[sender]
 		case "from-excluded":
@@ -528,11 +572,11 @@ func c07Generate(t *rapid.T, n, dishonest int) *c07Case {
 		}
 	}
 	// injections
-	nInj := rapid.IntRange(0, 4).Draw(t, "injections")
+	nInj := rapid.IntRange(1, 4).Draw(t, "injections")
 	for i := 0; i < nInj; i++ {
 		in := c07Injection{
 			triggerSender: rapid.SampledFrom(c.operating).Draw(t, "injSender"),
-			triggerType:   rapid.IntRange(0, len(c07Types)-1).Draw(t, "injType"),
+			triggerType:   -1, // every message type this sender broadcasts
 			before:        rapid.Bool().Draw(t, "injBefore"),
 		}
 		kinds := []string{"other-session", "wrong-index"}
